@@ -271,6 +271,7 @@ JudgeTransfer(tr, T, ev) ==
     Cl("C02.outcome", T.dev # "base" /\ valid /\ refok /\ ref.out \in {"overflow", "underflow"} /\ ~ev.tiesbig, ev.out = ref.out),
     Cl("C07.pairs", F.records /\ valid /\ ok, PairsOK(T, a, body)),
     Cl("C07.flows", F.records /\ valid /\ ok, FlowsOK(T, a, x, body)),
+    Cl("C18.side", F.records /\ valid /\ ok /\ PairsOK(T, a, body), SideColumnsAscend(T, a, body)),
     Cl("C06.steps", F.records /\ valid, StepsOK(T, body)),
     Cl("C06.count", F.records /\ valid /\ ok /\ T.autosplit,
        Cardinality(PairStarts(body)) = SumSeq([i \in 1..Len(x) |-> NSteps(x[i].v, T.wlmax)])),
@@ -567,6 +568,11 @@ JudgeDilution(tr, T, ev) ==
        \A r \in 1..a.R : \A c \in 1..a.C :
           RMul(a.frac[r][c], a.stock) = ImpliedConc(a, r, c)),
     Cl("C14.exec.stock", planok /\ ok, used(a.stocklw, a.stockcol + 1) = a.vstock * a.upm),
+    \* an optional destination plate receives v_destination from EVERY well of the plan (also from columns that needed no diluent)
+    Cl("C14.exec.dest", planok /\ ok /\ a.hasdest,
+       LET g == T.lw[a.destlw].g IN
+       \A r \in 0..(a.R - 1) : \A c \in 0..(a.C - 1) :
+          a.after[a.destlw][RealIdx(g, <<r, c>>)] - a.before[a.destlw][RealIdx(g, <<r, c>>)] = a.vdest),
     Cl("C14.exec.diluent", planok /\ ok,
        LET allv == SumSeq([i \in 1..Len(a.instr) |-> SumSeq(a.instr[i].v)]) IN
        /\ used(a.diluentlw, a.diluentcol + 1) <= a.vdiluent * a.upm
